@@ -120,6 +120,16 @@ theorem pRetract_step (id : Id) (expect : Option Nat) (s : Store) (tx : Tx) :
     repeat' split
     all_goals first | exact .same rfl h1 | exact .same rfl ⟨h1.1, h1.2.1, h1.2.2⟩
 
+theorem pAct_step (id : Id) (a : Act) (s : Store) (tx : Tx) : Step s tx (pAct id a s tx) := by
+  unfold pAct
+  split
+  · exact .same rfl (TxSame.rfl' _)
+  · rename_i tx1 x hl
+    have h1 := load_same hl
+    split
+    · exact .same rfl h1
+    · exact .same rfl ⟨h1.1, h1.2.1, h1.2.2⟩
+
 theorem pPurge_step (id : Id) (bad : Bool) (s : Store) (tx : Tx) : Step s tx (pPurge id bad s tx) := by
   unfold pPurge
   split
@@ -232,6 +242,14 @@ theorem pres_pAssign (id : Id) (v : Option Nat) : Pres (pAssign id v) := Pres.of
 theorem pres_pSetState (id : Id) (to : St) (x : Option St) : Pres (pSetState id to x) := Pres.of_step (pSetState_step id to x)
 theorem pres_pRetract (id : Id) (x : Option Nat) : Pres (pRetract id x) := Pres.of_step (pRetract_step id x)
 theorem pres_pPurge (id : Id) (b : Bool) : Pres (pPurge id b) := Pres.of_step (pPurge_step id b)
+theorem pres_pAct (id : Id) (a : Act) : Pres (pAct id a) := Pres.of_step (pAct_step id a)
+
+theorem RInv.pActs {base : Store} {q : Nat} {d : Bool} (id : Id) (acts : List Act) {p : PS} (h : RInv base q d p) :
+    RInv base q d (pActs id acts p) := by
+  unfold Tx.pActs
+  induction acts generalizing p with
+  | nil => exact h
+  | cons a r ih => exact ih (h.andThen' (pres_pAct id a))
 
 theorem Pres.chain {f g : Store → Tx → PS} (hf : Pres f) (hg : Pres g) : Pres (fun s tx => (f s tx).andThen g) :=
   fun base q d s tx e h => (hf base q d s tx e h).andThen' hg
@@ -262,7 +280,14 @@ macro "pres_chain" h:ident : tactic => `(tactic|
 
 theorem applyClause_pres (c : Clause) : Pres (applyClause c) := by
   intro base q d s tx e h
-  cases c <;> simp only [applyClause] <;> (repeat' split) <;> pres_chain h
+  cases c with
+  | update t acts expect bad =>
+      simp only [applyClause]
+      split
+      · pres_chain h
+      · apply RInv.pActs
+        pres_chain h
+  | _ => simp only [applyClause] <;> (repeat' split) <;> pres_chain h
 
 theorem RInv.declareAll {base : Store} {q : Nat} {d : Bool} (cs : List Clause) {p : PS} (h : RInv base q d p) :
     RInv base q d (declareAll cs p) := by
